@@ -775,10 +775,22 @@ package gldap
 //@   panics false
 //@   tags C17 C15
 
-//@ func gldap.validateAddrPort
+// C17: address validation never alters the port text: an accepted address is returned as ":port",
+// "host:port" or "[host]:port" with host and port the texts before and after one of the input's colons,
+// so a port that the listen call must reject (not a number, out of range) still reaches it unchanged.
+//@ func gldap.last
+//@   ensures  -1 <= result && result < len(s)
+//@   ensures  result >= 0 ==> s[result] == b
 //@   panics false
 //@   modifies nothing
-//@   trusted
+//@   tags C17
+//@ loop 1
+//@   invariant -1 <= i && i < len(s)
+//@ func gldap.validateAddrPort
+//@   ensures[C17] err == nil ==> exists(k, 0, len(addrPort), addrPort[k] == ':' && len(addrPort) > k + 1 && (result0 == sprintf(":%s", addrPort[k+1:]) || result0 == sprintf("%s:%s", addrPort[0:k], addrPort[k+1:]) || result0 == sprintf("[%s]:%s", addrPort[0:k], addrPort[k+1:])))
+//@   panics false
+//@   modifies nothing
+//@   tags C17
 // C09/C06: a connection's ID and a request's number never change after they were assigned: the fields are
 // written only where the object is built (package-wide frame condition over every store in both packages).
 //@ writeonly[C09] gldap.conn.connID by gldap.newConn
